@@ -16,6 +16,7 @@ import (
 	"encoding/json"
 	"fmt"
 	"os"
+	"reflect"
 	"regexp"
 	"runtime"
 	"sort"
@@ -108,6 +109,33 @@ func inputStraightToOutput(p string) bool {
 }
 
 type event map[string]any
+
+var fromjsonRe = regexp.MustCompile(`\bfromjson\b`)
+
+// the comparison rule of TraceJq.tla, used only to decide whether extra evidence is worth gathering
+func sameOutcomes(fq, gj []jqrun.Outcome) bool {
+	if len(fq) != len(gj) {
+		return false
+	}
+	for i := range gj {
+		switch gj[i]["k"] {
+		case "v":
+			if fq[i]["k"] != "v" || !reflect.DeepEqual(fq[i]["v"], gj[i]["v"]) {
+				return false
+			}
+		case "e":
+			if fq[i]["k"] != "e" {
+				return false
+			}
+			if u, _ := gj[i]["u"].(bool); u && !reflect.DeepEqual(fq[i]["v"], gj[i]["v"]) {
+				return false
+			}
+		default:
+			return false
+		}
+	}
+	return true
+}
 
 type work struct {
 	c      tcase
@@ -356,6 +384,22 @@ func replay(cases []tcase, singleEvery int) []event {
 		}
 	}
 	wg.Wait()
+	// Extra evidence for differences downstream of fromjson (no verdict here): fq's fromjson returns a decode value; the same
+	// program with every fromjson followed by tovalue (the plain jq value) shows whether the difference comes from that alone.
+	for _, w := range ws {
+		fq, ok1 := w.ev["fq"].([]jqrun.Outcome)
+		gj, ok2 := w.ev["gj"].([]jqrun.Outcome)
+		if !ok1 || !ok2 || !strings.Contains(w.c.Prog, "fromjson") || sameOutcomes(fq, gj) {
+			continue
+		}
+		p2 := fromjsonRe.ReplaceAllString(w.c.Prog, "(fromjson | tovalue)")
+		r := jqrun.Fq([]string{"fq", "-nc", "--argjson", "__vin", "[" + w.input + "]", jqrun.BatchExpr([]string{p2})}, nil, nil, 10*time.Second)
+		if r.Exit == 0 && !r.TimedOut {
+			if got, err := jqrun.ParseBatch(r.Stdout, 1, 1); err == nil {
+				w.ev["fq_fromjson_tovalue"] = got[0][0]
+			}
+		}
+	}
 	evs := make([]event, len(ws))
 	for i, w := range ws {
 		evs[i] = w.ev
